@@ -732,7 +732,9 @@ pub fn run(ctx: &Ctx, tier: Tier) -> Result<(), String> {
             .or_insert(0) += 1;
     }
     ctx.set_info("cli_cases", json!({"total": cs.len(), "by_command": kinds}));
-    let root = scratch_dir()?.join("runs");
+    // per-process directory (a quick and a thorough run may overlap); removed at the end, the
+    // replay of a recorded case regenerates its files
+    let root = scratch_dir()?.join(format!("runs-{}", std::process::id()));
     let _ = std::fs::remove_dir_all(&root);
     let errs: Vec<String> = cs
         .par_iter()
@@ -753,6 +755,7 @@ pub fn run(ctx: &Ctx, tier: Tier) -> Result<(), String> {
             }
         })
         .collect();
+    let _ = std::fs::remove_dir_all(&root);
     if let Some(e) = errs.first() {
         return Err(format!("{} CLI case(s) could not be run, first: {e}", errs.len()));
     }
